@@ -46,6 +46,10 @@ CONSTANTS
   MaxFaults,   \* bound on Kill / Stall / Drop actions in a behaviour
   FaultKinds,  \* subset of {"kill", "stall", "drop"}
   Victims,     \* filters that may be killed / stalled
+  ExitAt,      \* [Filters -> Int]  the filter ends itself in the process() call that sees original frame ExitAt (-1: never)
+  ExitKind,    \* [Filters -> {"clean", "error"}]  by exit() or by raising
+  PropExit,    \* [Filters -> SUBSET {"clean", "error"}]  prop_exit policy: which kinds of its own ending it announces
+  ObeyExit,    \* [Filters -> SUBSET {"clean", "error"}]  obey_exit policy: which announced kinds make it end too
   CheckC03,    \* evaluate C03 (meaningful only without faults, with the handshake on and required outputs declared)
   TopicOrder   \* sequence of all topic names: the dict order in which a frame set is published
 
@@ -160,7 +164,9 @@ Init ==
   /\ bad     = {}
   /\ lbl     = <<"init", "", 0>>
 
-Alive(f) == pc[f] # "dead"
+Alive(f) == pc[f] \notin {"dead", "done"}
+Closing(f) == pc[f] \in {"x_close1", "x_close2", "done"}
+SubOpen(f) == pc[f] \notin {"dead", "done", "x_close2"}      \* the SUB / PUSH sockets of f exist
 Runs(f)  == Alive(f) /\ f \notin stalled
 
 -----------------------------------------------------------------------------
@@ -181,17 +187,23 @@ PubSeq(c, msgs, q) ==      \* q = <<in flight, arrived count>>; one message at a
        IN PubSeq(c, Tail(msgs), q1)
 
 PubAll(g, outs, msgs, pq) ==
-  [c \in Conns |-> IF PubOf(c) = g /\ OutOf(c) \in outs /\ linkUp[c] /\ Alive(c[1])
+  [c \in Conns |-> IF PubOf(c) = g /\ OutOf(c) \in outs /\ linkUp[c] /\ SubOpen(c[1])
                    THEN PubSeq(c, msgs, <<pq[c], Len(subq[c])>>)[1]
                    ELSE pq[c]]
 
-Establish(c) == /\ ~linkUp[c] /\ Alive(c[1]) /\ Alive(PubOf(c))
+HelloMsg(g) == [k |-> "hello", mid |-> -4, topic |-> "", topics |-> {}, pay |-> NoPay, bal |-> 0, inc |-> inc[g]]
+OobMsg(g, kind) == [k |-> "oob", mid |-> -2, topic |-> kind, topics |-> {}, pay |-> NoPay, bal |-> 0, inc |-> inc[g]]
+CloseMsg(g) == [k |-> "close", mid |-> -3, topic |-> "", topics |-> {}, pay |-> NoPay, bal |-> 0, inc |-> inc[g]]
+AllOuts(g) == 1..NOut[g]
+TermPub(f, kind, pq) == IF kind \in PropExit[f] /\ NOut[f] > 0 THEN PubAll(f, AllOuts(f), <<OobMsg(f, kind)>>, pq) ELSE pq
+
+Establish(c) == /\ ~linkUp[c] /\ SubOpen(c[1]) /\ Alive(PubOf(c))
                 /\ linkUp' = [linkUp EXCEPT ![c] = TRUE]
                 /\ lbl' = <<"est", c[1], c[2]>>
                 /\ UNCHANGED <<pc, minSend, clients, sl, prevId, rmin, rbal, rsrc, mq, oseq, pubq, subq, reqq, pullq,
                                inc, stalled, nfaults, gvars>>
 
-DeliverPub(c) == /\ pubq[c] # <<>> /\ Alive(c[1])
+DeliverPub(c) == /\ pubq[c] # <<>> /\ SubOpen(c[1])
                  /\ subq' = [subq EXCEPT ![c] = Append(@, Head(pubq[c]))]
                  /\ pubq' = [pubq EXCEPT ![c] = Tail(@)]
                  /\ lbl' = <<"dpub", c[1], c[2]>>
@@ -218,7 +230,9 @@ DropPub(c) == /\ "drop" \in FaultKinds /\ nfaults < MaxFaults
 
 \* request(prev_id) (zeromq.py:894-908): one request per source; '??' sources have no PUSH socket; a full pipe raises
 \* zmq.Again which only marks the source disconnected (send_push, zeromq.py:616-627)
-ReqMsg(f, c, mid, srcs) == [c |-> c, inc |-> inc[f], mid |-> mid, eph |-> Eph(c), new |-> ~srcs[c[2]].conn, k |-> "req"]
+ReqMsg(f, c, mid, srcs) == [c |-> c, inc |-> inc[f], mid |-> mid, eph |-> Eph(c), new |-> ~srcs[c[2]].conn, k |-> "req", x |-> ""]
+OobReq(f, c, kind)   == [c |-> c, inc |-> inc[f], mid |-> -2, eph |-> 0, new |-> FALSE, k |-> "oob", x |-> kind]
+CloseReq(f, c)       == [c |-> c, inc |-> inc[f], mid |-> -3, eph |-> 0, new |-> FALSE, k |-> "close", x |-> ""]
 \* the high-water mark is per PUSH socket: requests still in flight from an earlier incarnation of f do not count
 Pending(f, c, q) == Len(SelectSeq(q[c], LAMBDA m : m.inc = inc[f]))
 Request(f, mid, srcs, q) ==
@@ -227,6 +241,28 @@ Request(f, mid, srcs, q) ==
 ReqConn(f, srcs, q) ==    \* effect of zmq.Again on sender.conn
   [i \in 1..Len(srcs) |-> IF Eph(<<f, i>>) < 2 /\ Pending(f, <<f, i>>, q) >= PushHWM
                           THEN [srcs[i] EXCEPT !.conn = FALSE] ELSE srcs[i]]
+
+(* A filter ends (Filter.run, filter.py:1166-1215): shutdown(), then the exit message if the policy says so
+   (MQ.send_exit_msg: receiver.send_oob to every source with a request pipe, sender.send_oob on every output), then
+   fini() -> MQ.destroy(): receiver.destroy() sends CLOSE on the request pipes and sleeps ZMQ_EXPLICIT_LINGER (a yield),
+   closes its sockets; then sender.destroy() publishes CLOSE, sleeps (a yield), closes.  kind = "clean" | "error". *)
+TermReq(f, kind, q) ==
+  [c \in Conns |->
+     IF c[1] = f /\ Eph(c) < 2
+     THEN LET q1 == IF kind \in PropExit[f] /\ Pending(f, c, q) < PushHWM THEN Append(q[c], OobReq(f, c, kind)) ELSE q[c]
+              n1 == Len(SelectSeq(q1, LAMBDA m : m.inc = inc[f]))
+          IN IF n1 < PushHWM THEN Append(q1, CloseReq(f, c)) ELSE q1
+     ELSE q[c]]
+
+\* the protocol-visible part of ending, conjoined by the action in which the ending is triggered (q, pq: the request / publish
+\* queues after that action's own effects); everything up to the first sleep() of MQ.destroy() happens in the same step
+Terminate(f, kind, q, pq) ==
+  /\ reqq' = TermReq(f, kind, q)
+  /\ IF NSrc(f) > 0
+     THEN /\ pubq' = TermPub(f, kind, pq)
+          /\ pc' = [pc EXCEPT ![f] = "x_close1"]
+     ELSE /\ pubq' = PubAll(f, AllOuts(f), <<CloseMsg(f)>>, TermPub(f, kind, pq))
+          /\ pc' = [pc EXCEPT ![f] = "x_close2"]
 
 Got(s) == IF ~s.some THEN "none"
           ELSE IF \A t \in Dom(s.e) : s.e[t] # NoE THEN "all"
@@ -268,14 +304,16 @@ ProcMsg(f, i, m, st) ==
             ELSE IF ~eph /\ SrcBal[f] /\ m.topic # "" THEN [srcs1[j] EXCEPT !.reg = FALSE]
             ELSE srcs1[j]]
       Done(s, inval) ==
-         [min |-> IF eph THEN st.min ELSE m.mid, bal |-> bal1,
+         [x |-> "", min |-> IF eph THEN st.min ELSE m.mid, bal |-> bal1,
           srcs |-> Others(After(IF eph THEN [s EXCEPT !.emin = m.mid] ELSE s), inval)]
-  IN CASE m.k = "close" -> [min |-> st.min, bal |-> st.bal,                      \* zeromq.py:791-797
+  IN CASE m.k = "close" -> [min |-> st.min, bal |-> st.bal, x |-> "",            \* zeromq.py:791-797
                             srcs |-> [srcs1 EXCEPT ![i] = [s1 EXCEPT !.emin = 0, !.conn = FALSE]]]
-       [] m.k \in {"hello", "oob"} -> [min |-> st.min, bal |-> st.bal, srcs |-> srcs1]
+       [] m.k = "hello" -> [min |-> st.min, bal |-> st.bal, srcs |-> srcs1, x |-> ""]
+       \* out-of-band = exit message of a neighbour (zeromq.py:788-789 -> Filter.init.on_exit_msg): obeyed or ignored
+       [] m.k = "oob" -> [min |-> st.min, bal |-> st.bal, srcs |-> srcs1, x |-> IF m.topic \in ObeyExit[f] THEN m.topic ELSE ""]
        [] OTHER ->
           IF (m.mid < minU /\ ~D("no_old_recv")) \/ (D("le_old") /\ m.mid <= minU /\ s1.some)
-          THEN [min |-> st.min, bal |-> bal1, srcs |-> srcs1]                    \* older: discard (806-810)
+          THEN [min |-> st.min, bal |-> bal1, srcs |-> srcs1, x |-> ""]          \* older: discard (806-810)
           ELSE IF ~s1.some                                                       \* recvd is None (812-813)
                THEN Done([s1 EXCEPT !.some = TRUE, !.e = InitFrom(c, m, ent)],
                          "C01a" \notin Defects /\ m.mid > minU /\ ~eph)
@@ -294,7 +332,8 @@ Consume(f, i, st, q, ready) ==
        THEN LET m  == Head(q[<<f, i>>])
                 r  == ProcMsg(f, i, m, st)
                 q1 == [q EXCEPT ![<<f, i>>] = Tail(@)]
-            IN IF SrcBal[f] /\ m.k = "data" /\ Eph(<<f, i>>) = 0 /\ m.mid >= st.min
+            IN IF r.x # "" THEN [st |-> r, q |-> q1]          \* exit() raised inside recv(): the rest of the batch is not read
+               ELSE IF SrcBal[f] /\ m.k = "data" /\ Eph(<<f, i>>) = 0 /\ m.mid >= st.min
                THEN [st |-> r, q |-> q1]
                ELSE Consume(f, i - 1, r, q1, ready)
        ELSE Consume(f, i - 1, st, q, ready)
@@ -333,15 +372,18 @@ REnter(f) ==
 RPollMsgs(f, phase) ==
   /\ pc[f] = phase
   /\ Ready(f) # {}
-  /\ LET r == Consume(f, NSrc(f), [min |-> rmin[f], bal |-> rbal[f], srcs |-> rsrc[f]], subq, Ready(f))
+  /\ LET r == Consume(f, NSrc(f), [min |-> rmin[f], bal |-> rbal[f], srcs |-> rsrc[f], x |-> ""], subq, Ready(f))
      IN /\ rmin' = [rmin EXCEPT ![f] = r.st.min]
         /\ rbal' = [rbal EXCEPT ![f] = r.st.bal]
         /\ rsrc' = [rsrc EXCEPT ![f] = r.st.srcs]
         /\ subq' = r.q
-        /\ pc' = [pc EXCEPT ![f] = IF Complete(f, r.st.srcs)
-                                    THEN (IF phase = "r_poll0" THEN "r_fin0" ELSE "r_finw") ELSE phase]
+        /\ IF r.st.x # ""               \* an obeyed exit message: exit() raised inside recv(), the filter ends
+           THEN Terminate(f, r.st.x, reqq, pubq)
+           ELSE /\ pc' = [pc EXCEPT ![f] = IF Complete(f, r.st.srcs)
+                                           THEN (IF phase = "r_poll0" THEN "r_fin0" ELSE "r_finw") ELSE phase]
+                /\ UNCHANGED <<pubq, reqq>>
   /\ lbl' = <<"step", f, 0>>
-  /\ UNCHANGED <<minSend, clients, sl, prevId, mq, oseq, pubq, reqq, pullq, linkUp, inc, stalled, nfaults, gvars>>
+  /\ UNCHANGED <<minSend, clients, sl, prevId, mq, oseq, pullq, linkUp, inc, stalled, nfaults, gvars>>
 
 \* recv_once(0) finds nothing: first request of the slice, park at poll(ZMQ_POLL_TIMEOUT)  (zeromq.py:939-948)
 RPoll0Empty(f) ==
@@ -468,14 +510,19 @@ RFinal(f, phase, back) ==
 Proc(f) ==
   /\ pc[f] = "proc"
   /\ LET r == ProcFn(f, Seen(f, mq[f].inp))
-     IN IF r.none
+     IN IF ExitAt[f] >= 0 /\ KeyQ(Seen(f, mq[f].inp)) = ExitAt[f]
+        THEN \* process() calls exit() / raises: the filter ends (the frames in hand are dropped)
+             /\ mq' = [mq EXCEPT ![f].has = FALSE, ![f].inp = EmptyF, ![f].frames = EmptyF]
+             /\ Terminate(f, ExitKind[f], reqq, pubq)
+        ELSE IF r.none
         THEN \* sink, or process() returned None: MQ.send(None) returns True at once (mq.py:183-187)
              /\ mq' = [mq EXCEPT ![f].has = FALSE, ![f].inp = EmptyF, ![f].frames = EmptyF]
              /\ pc' = [pc EXCEPT ![f] = IF Beh[f].slow THEN "work_r" ELSE "r_enter"]
         ELSE /\ mq' = [mq EXCEPT ![f].inp = EmptyF, ![f].frames = r.frames]
              /\ pc' = [pc EXCEPT ![f] = IF Beh[f].slow THEN "work_s" ELSE "s_enter"]
+  /\ IF ExitAt[f] >= 0 /\ KeyQ(Seen(f, mq[f].inp)) = ExitAt[f] THEN TRUE ELSE UNCHANGED <<pubq, reqq>>
   /\ lbl' = <<"int", f, 0>>
-  /\ UNCHANGED <<minSend, clients, sl, prevId, rmin, rbal, rsrc, oseq, pubq, subq, reqq, pullq, linkUp, inc, stalled,
+  /\ UNCHANGED <<minSend, clients, sl, prevId, rmin, rbal, rsrc, oseq, subq, pullq, linkUp, inc, stalled,
                  nfaults, gvars>>
 
 \* process() takes (virtual) time: the filter yields in sleep(); a timeout-kind step ends it
@@ -487,9 +534,17 @@ WorkDone(f) ==
   /\ UNCHANGED <<minSend, sl, prevId, rmin, rbal, rsrc, mq, oseq, pubq, subq, reqq, pullq, linkUp, inc, stalled,
                  nfaults, gvars>>
 
+GenExit(f) ==           \* the origin ends itself instead of producing frame ExitAt
+  /\ pc[f] = "gen"
+  /\ oseq[f] <= MaxSeq /\ ExitAt[f] >= 0 /\ oseq[f] = ExitAt[f]
+  /\ Terminate(f, ExitKind[f], reqq, pubq)
+  /\ lbl' = <<"int", f, 0>>
+  /\ UNCHANGED <<minSend, clients, sl, prevId, rmin, rbal, rsrc, mq, oseq, subq, pullq, linkUp, inc, stalled,
+                 nfaults, gvars>>
+
 Gen(f) ==
   /\ pc[f] = "gen"
-  /\ oseq[f] <= MaxSeq
+  /\ oseq[f] <= MaxSeq /\ ~(ExitAt[f] >= 0 /\ oseq[f] = ExitAt[f])
   /\ IF Beh[f].lazy
      THEN mq' = [mq EXCEPT ![f].frames = EmptyF, ![f].has = TRUE]       \* a callable: evaluated inside send_maybe
      ELSE /\ mq' = [mq EXCEPT ![f].frames = [t \in OTopics(f, oseq[f]) |-> <<FIdx[f], oseq[f], 0>>], ![f].has = TRUE]
@@ -550,8 +605,6 @@ ChooseOut(g, cl) ==
       cands == {o \in el : OutStat(cl, o).prev = mn}
   IN CHOOSE o \in cands : \A o2 \in cands : FirstPos(cl, o) <= FirstPos(cl, o2)
 
-HelloMsg(g) == [k |-> "hello", mid |-> -4, topic |-> "", topics |-> {}, pay |-> NoPay, bal |-> 0, inc |-> inc[g]]
-AllOuts(g) == 1..NOut[g]
 
 \* order in which topics are published: dict order of the frames = TopicOrder restricted to the set
 SetSeq(S) == SelectSeq(TopicOrder, LAMBDA t : t \in S)
@@ -598,9 +651,23 @@ ReadyOut(f) == {o \in 1..NOut[f] : pullq[f][o] # <<>>}
 FirstOut(f) == CHOOSE o \in ReadyOut(f) : \A o2 \in ReadyOut(f) : o <= o2
 
 \* one poll_recv() resume with a request at the head of a PULL queue (zeromq.py:322-414)
+ObeyedOob(f) == LET m == Head(pullq[f][FirstOut(f)]) IN m.k = "oob" /\ m.x \in ObeyExit[f]
+
+\* an exit message from a consumer that this filter obeys (zeromq.py:346-350 -> on_exit_msg -> exit() raised inside send())
+SPollOob(f, phase) ==
+  /\ pc[f] = phase
+  /\ ReadyOut(f) # {} /\ ObeyedOob(f)
+  /\ LET o == FirstOut(f)
+         m == Head(pullq[f][o])
+     IN /\ pullq' = [pullq EXCEPT ![f][o] = Tail(@)]
+        /\ mq' = [mq EXCEPT ![f].has = FALSE, ![f].frames = EmptyF]
+        /\ Terminate(f, m.x, reqq, pubq)
+  /\ lbl' = <<"step", f, 0>>
+  /\ UNCHANGED <<minSend, clients, sl, prevId, rmin, rbal, rsrc, oseq, subq, linkUp, inc, stalled, nfaults, gvars>>
+
 SPollMsg(f, phase) ==
   /\ pc[f] = phase
-  /\ ReadyOut(f) # {}
+  /\ ReadyOut(f) # {} /\ ~ObeyedOob(f)
   /\ LET o  == FirstOut(f)
          m  == Head(pullq[f][o])
          c  == m.c
@@ -668,6 +735,33 @@ STimeout(f) ==
   /\ UNCHANGED <<minSend, sl, prevId, rmin, rbal, rsrc, mq, oseq, pubq, subq, reqq, pullq, linkUp, inc, stalled,
                  nfaults, gvars>>
 
+\* receiver.destroy(): the ZMQ_EXPLICIT_LINGER sleep is over, the SUB / PUSH sockets are closed; then sender.destroy() publishes
+\* CLOSE and sleeps in turn
+XClose1Done(f) ==
+  /\ pc[f] = "x_close1"
+  /\ subq' = [c \in Conns |-> IF c[1] = f THEN <<>> ELSE subq[c]]
+  /\ linkUp' = [c \in Conns |-> IF c[1] = f THEN FALSE ELSE linkUp[c]]
+  /\ LET pq == [c \in Conns |-> IF c[1] = f THEN <<>> ELSE pubq[c]]
+     IN IF NOut[f] > 0
+        THEN /\ pubq' = PubAll(f, AllOuts(f), <<CloseMsg(f)>>, pq)
+             /\ pc' = [pc EXCEPT ![f] = "x_close2"]
+        ELSE /\ pubq' = pq
+             /\ pc' = [pc EXCEPT ![f] = "done"]
+  /\ prevId' = [prevId EXCEPT ![f] = -1]          \* MQ.destroy drops the receiver object
+  /\ lbl' = <<"timeout", f, 0>>
+  /\ UNCHANGED <<minSend, clients, sl, rmin, rbal, rsrc, mq, oseq, reqq, pullq, inc, stalled, nfaults, gvars>>
+
+\* the PUB / PULL sockets are closed: what was published is still delivered, nothing more is accepted
+XClose2Done(f) ==
+  /\ pc[f] = "x_close2"
+  /\ pullq' = [pullq EXCEPT ![f] = [o \in 1..NOut[f] |-> <<>>]]
+  /\ linkUp' = [c \in Conns |-> IF PubOf(c) = f THEN FALSE ELSE linkUp[c]]
+  /\ pc' = [pc EXCEPT ![f] = "done"]
+  /\ minSend' = [minSend EXCEPT ![f] = 0]        \* MQ.destroy drops the sender object
+  /\ clients' = [clients EXCEPT ![f] = <<>>]
+  /\ lbl' = <<"timeout", f, 0>>
+  /\ UNCHANGED <<sl, prevId, rmin, rbal, rsrc, mq, oseq, pubq, subq, reqq, inc, stalled, nfaults, gvars>>
+
 -----------------------------------------------------------------------------
 (* Faults *)
 \* process death: sockets vanish, nothing is said; what is already in flight towards others may arrive or not (keep)
@@ -724,7 +818,7 @@ Resume(f) ==
 Internal(p) == p \in {"r_enter", "proc", "s_enter", "gen"}
 IntEnabled(f) == Runs(f) /\ Internal(pc[f]) /\ ~(pc[f] = "gen" /\ oseq[f] > MaxSeq)
 
-IntStep(f) == Runs(f) /\ (REnter(f) \/ Proc(f) \/ Gen(f) \/ SEnter(f))
+IntStep(f) == Runs(f) /\ (REnter(f) \/ Proc(f) \/ Gen(f) \/ GenExit(f) \/ SEnter(f))
 
 \* steps that resume a filter from poll() without a timeout
 StepNT(f) ==
@@ -732,8 +826,9 @@ StepNT(f) ==
   /\ \/ RPollMsgs(f, "r_poll0") \/ RPollMsgs(f, "r_wait") \/ RPoll0Empty(f)
      \/ RFinal(f, "r_fin0", "r_poll0") \/ RFinal(f, "r_finw", "r_wait")
      \/ SPollMsg(f, "s_drain") \/ SPollMsg(f, "s_drain_h") \/ SPollMsg(f, "s_wait") \/ SPollMsg(f, "s_wait_h")
+     \/ SPollOob(f, "s_drain") \/ SPollOob(f, "s_drain_h") \/ SPollOob(f, "s_wait") \/ SPollOob(f, "s_wait_h")
      \/ SPollEmpty(f)
-StepTO(f) == Runs(f) /\ (RTimeout(f) \/ STimeout(f) \/ WorkDone(f))
+StepTO(f) == Runs(f) /\ (RTimeout(f) \/ STimeout(f) \/ WorkDone(f) \/ XClose1Done(f) \/ XClose2Done(f))
 
 Net    == \E c \in Conns : Establish(c) \/ DeliverPub(c) \/ DeliverReq(c)
 Fault  == \/ \E c \in Conns : DropPub(c)
@@ -748,8 +843,8 @@ Spec == Init /\ [][Next]_vars
 
 (* Prompt scheduling: message latency and compute time are far below the poll interval, so a poll timeout fires only
    when nothing else can happen ("delays below the request interval, runnable filters run promptly"). *)
-NetEnabled == \E c \in Conns : \/ ~linkUp[c] /\ Alive(c[1]) /\ Alive(PubOf(c))
-                               \/ pubq[c] # <<>> /\ Alive(c[1])
+NetEnabled == \E c \in Conns : \/ ~linkUp[c] /\ SubOpen(c[1]) /\ Alive(PubOf(c))
+                               \/ pubq[c] # <<>> /\ SubOpen(c[1])
                                \/ reqq[c] # <<>> /\ Alive(PubOf(c))
 FilterReady(f) == /\ Runs(f)
                   /\ \/ pc[f] \in {"r_poll0", "r_fin0", "r_finw", "s_drain", "s_drain_h", "s_wait_h"}
@@ -807,6 +902,19 @@ C04_Tight6 == C04_Tight(6)
 \* (a publisher stuck forever behind a dead or confused consumer never does) and everything is alive again
 C06_Drained == \A g \in Filters : (IsOrigin(g) => pc[g] = "gen" /\ oseq[g] > MaxSeq) /\ Alive(g)
 C06_Heals == <>[]C06_Drained
+
+(* C08 at pipeline level: who ends = least fixpoint of announce / obey over the topology, starting from the filters that end by
+   themselves.  An exit message travels downstream on the PUB socket and upstream on the request pipe (not from a '??' source,
+   which has none). *)
+Exiters == {f \in Filters : ExitAt[f] >= 0}
+Nbrs(f) == {c[1] : c \in ConnsOf(f)} \cup {PubOf(c) : c \in {d \in Conns : d[1] = f /\ Eph(d) < 2}}
+RECURSIVE ReachK(_, _)
+ReachK(k, R) == LET add == {g \in Filters : k \in ObeyExit[g] /\ \E f \in R : k \in PropExit[f] /\ g \in Nbrs(f)} \ R
+                IN IF add = {} THEN R ELSE ReachK(k, R \cup add)
+ReachX == UNION {ReachK(ExitKind[f], {f}) : f \in Exiters}
+C08_NoSpuriousExit == \A f \in Filters : Closing(f) => f \in ReachX
+C08_AllEnded == \A f \in ReachX : pc[f] = "done"
+C08_WholePipeline == <>[]C08_AllEnded
 
 \* no filter dies of a RuntimeError raised by the protocol code itself
 NoCrash == \A f \in Filters : pc[f] # "crashed"
